@@ -4,7 +4,7 @@
 //! validation; structural ops use Gaussian components as carriers of two numbers (mu, sigma).
 #![allow(unused)]
 use crate::wire::*;
-use rv::dist::{Bernoulli, Gaussian, Mixture, Poisson};
+use rv::dist::{Bernoulli, Categorical, Exponential, Gaussian, Laplace, Mixture, Pareto, Poisson, Uniform};
 use rv::traits::*;
 
 fn weights(a: &mut Args) -> Vec<f64> {
@@ -23,6 +23,41 @@ fn poissons(a: &mut Args) -> Vec<Poisson> {
 fn bernoullis(a: &mut Args) -> Vec<Bernoulli> {
     a.list(|a| Bernoulli::new_unchecked(a.f()))
 }
+fn paretos(a: &mut Args) -> Vec<Pareto> {
+    a.list(|a| {
+        let shape = a.f();
+        let scale = a.f();
+        Pareto::new_unchecked(shape, scale)
+    })
+}
+fn uniforms(a: &mut Args) -> Vec<Uniform> {
+    a.list(|a| {
+        let lo = a.f();
+        let hi = a.f();
+        Uniform::new_unchecked(lo, hi)
+    })
+}
+fn categoricals(a: &mut Args) -> Vec<Categorical> {
+    a.list(|a| Categorical::new_unchecked(a.list(|a| a.f())))
+}
+fn opt_list(v: &[Option<f64>]) -> String {
+    let mut out = vec![format!("L{}", v.len())];
+    out.extend(v.iter().map(|x| tok(x)));
+    out.join(" ")
+}
+/// f32 moments of a mixture and of its components (widened exactly to f64)
+fn f32_moments<Fx>(w: Vec<f64>, cs: Vec<Fx>) -> String
+where
+    Fx: Mean<f32> + Variance<f32> + Clone,
+{
+    let cm: Vec<Option<f64>> = cs.iter().map(|c| Mean::<f32>::mean(c).map(|m| m as f64)).collect();
+    let cv: Vec<Option<f64>> = cs.iter().map(|c| Variance::<f32>::variance(c).map(|v| v as f64)).collect();
+    let m = Mixture::new_unchecked(w, cs);
+    let mean: Option<f32> = m.mean();
+    let var: Option<f32> = m.variance();
+    format!("{} {} {} {}", tok(&mean), tok(&var), opt_list(&cm), opt_list(&cv))
+}
+
 /// k tagged components (i, 1.0)
 fn std_tags(k: usize) -> Vec<Gaussian> {
     (0..k).map(|i| Gaussian::new_unchecked(i as f64, 1.0)).collect()
@@ -125,6 +160,157 @@ pub fn dispatch(op: &str, _kind: &str, a: &mut Args) -> Option<String> {
             let m = Mixture::new_unchecked(weights(a), bernoullis(a));
             let r: Option<f64> = m.variance();
             tok(&r)
+        }
+        // ---------------------------------------------------------------- components with parameter-dependent supports
+        "mix.pareto.ln_f" | "mix.pareto.f" | "mix.pareto.cdf" | "mix.pareto.pdf" | "mix.pareto.ln_pdf"
+        | "mix.pareto.supports" | "mix.unif.ln_f" | "mix.unif.f" | "mix.unif.cdf" | "mix.unif.pdf" | "mix.unif.ln_pdf"
+        | "mix.unif.supports" => {
+            let w = weights(a);
+            let q = &op[op.rfind('.').unwrap() + 1..];
+            if op.starts_with("mix.pareto.") {
+                let m = Mixture::new_unchecked(w, paretos(a));
+                let x: f64 = a.f();
+                match q {
+                    "ln_f" => tok(&m.ln_f(&x)),
+                    "f" => tok(&m.f(&x)),
+                    "cdf" => tok(&m.cdf(&x)),
+                    "pdf" => tok(&m.pdf(&x)),
+                    "ln_pdf" => tok(&m.ln_pdf(&x)),
+                    _ => tok(&m.supports(&x)),
+                }
+            } else {
+                let m = Mixture::new_unchecked(w, uniforms(a));
+                let x: f64 = a.f();
+                match q {
+                    "ln_f" => tok(&m.ln_f(&x)),
+                    "f" => tok(&m.f(&x)),
+                    "cdf" => tok(&m.cdf(&x)),
+                    "pdf" => tok(&m.pdf(&x)),
+                    "ln_pdf" => tok(&m.ln_pdf(&x)),
+                    _ => tok(&m.supports(&x)),
+                }
+            }
+        }
+        "mix.pareto.mean" | "mix.pareto.variance" | "mix.unif.mean" | "mix.unif.variance" => {
+            let w = weights(a);
+            let (mean, var): (Option<f64>, Option<f64>) = if op.starts_with("mix.pareto.") {
+                let m = Mixture::new_unchecked(w, paretos(a));
+                (m.mean(), m.variance())
+            } else {
+                let m = Mixture::new_unchecked(w, uniforms(a));
+                (m.mean(), m.variance())
+            };
+            if op.ends_with(".mean") { tok(&mean) } else { tok(&var) }
+        }
+        "mix.cat.ln_f" | "mix.cat.f" | "mix.cat.cdf" | "mix.cat.pmf" | "mix.cat.ln_pmf" | "mix.cat.supports" => {
+            let m = Mixture::new_unchecked(weights(a), categoricals(a));
+            let x: usize = a.n() as usize;
+            match op {
+                "mix.cat.ln_f" => tok(&m.ln_f(&x)),
+                "mix.cat.f" => tok(&m.f(&x)),
+                "mix.cat.cdf" => tok(&m.cdf(&x)),
+                "mix.cat.pmf" => tok(&m.pmf(&x)),
+                "mix.cat.ln_pmf" => tok(&m.ln_pmf(&x)),
+                _ => tok(&m.supports(&x)),
+            }
+        }
+        // Categorical has no Mean<f64> / Variance<f64>: the model answers N
+        "mix.cat.mean" | "mix.cat.variance" => {
+            let _ = (weights(a), categoricals(a));
+            "N".to_string()
+        }
+        // ---------------------------------------------------------------- quadrature entropy of Mixture<Gaussian>
+        "mix.gauss.quad_bounds" => {
+            let m = Mixture::new_unchecked(weights(a), gausses(a));
+            let (l, r) = m.quad_bounds();
+            format!("{} {}", tok(&l), tok(&r))
+        }
+        "mix.gauss.entropy" => {
+            let m = Mixture::new_unchecked(weights(a), gausses(a));
+            tok(&m.entropy())
+        }
+        // ---------------------------------------------------------------- f32 moments: <fam> <W> <params>
+        //   fam = laplace (mu b)* | unif (a b)* | expon (rate)*      answer: <opt mean32> <opt var32> L<k> cmean L<k> cvar
+        "mix.f32.moments" => {
+            let fam = a.tag();
+            let w = weights(a);
+            match fam.as_str() {
+                "laplace" => f32_moments(w, a.list(|a| { let mu = a.f(); let b = a.f(); Laplace::new_unchecked(mu, b) })),
+                "unif" => f32_moments(w, uniforms(a)),
+                "expon" => f32_moments(w, a.list(|a| Exponential::new_unchecked(a.f()))),
+                _ => "BAD:fam".to_string(),
+            }
+        }
+        // ---------------------------------------------------------------- histories (cache / state machine)
+        // mix.hist - <W> <G> <n> step*n     every answer item is separated by " | "
+        //   q <x>   ↦ "<live.ln_f(x)> <fresh.ln_f(x)>"      lw ↦ "<live.ln_weights()> <fresh.ln_weights()>"
+        //   f <x>   ↦ "<live.f(x)> <fresh.f(x)>"            eq ↦ "<live == fresh> T"
+        //   ws <W>  checked set_weights      ↦ "U" | "E:<Variant>"      wu <W> set_weights_unchecked (no answer)
+        //   cs <G>  checked set_components   ↦ "U" | "E:<Variant>"      cu <G> set_components_unchecked (no answer)
+        //   clone   live = live.clone() (no answer)
+        //   fresh = Mixture::new_unchecked(parameters the live mixture must have after the steps so far)
+        "mix.hist" => {
+            let mut w = weights(a);
+            let mut g = gausses(a);
+            let mut live = Mixture::new_unchecked(w.clone(), g.clone());
+            let n = a.n();
+            let mut out: Vec<String> = vec![];
+            for _ in 0..n {
+                let t = a.tag();
+                match t.as_str() {
+                    "q" => {
+                        let x = a.f();
+                        let fresh = Mixture::new_unchecked(w.clone(), g.clone());
+                        out.push(format!("{} {}", tok(&live.ln_f(&x)), tok(&fresh.ln_f(&x))));
+                    }
+                    "f" => {
+                        let x = a.f();
+                        let fresh = Mixture::new_unchecked(w.clone(), g.clone());
+                        out.push(format!("{} {}", tok(&live.f(&x)), tok(&fresh.f(&x))));
+                    }
+                    "lw" => {
+                        let fresh = Mixture::new_unchecked(w.clone(), g.clone());
+                        out.push(format!("{} {}", tok(&live.ln_weights().to_vec()), tok(&fresh.ln_weights().to_vec())));
+                    }
+                    "eq" => {
+                        let fresh = Mixture::new_unchecked(w.clone(), g.clone());
+                        out.push(format!("{} T", tok(&(live == fresh))));
+                    }
+                    "ws" => {
+                        let w1 = weights(a);
+                        match live.set_weights(w1.clone()) {
+                            Ok(()) => {
+                                w = w1;
+                                out.push("U".to_string());
+                            }
+                            Err(e) => out.push(err_tok(&e)),
+                        }
+                    }
+                    "wu" => {
+                        w = weights(a);
+                        live.set_weights_unchecked(w.clone());
+                    }
+                    "cs" => {
+                        let g1 = gausses(a);
+                        match live.set_components(g1.clone()) {
+                            Ok(()) => {
+                                g = g1;
+                                out.push("U".to_string());
+                            }
+                            Err(e) => out.push(err_tok(&e)),
+                        }
+                    }
+                    "cu" => {
+                        g = gausses(a);
+                        live.set_components_unchecked(g.clone());
+                    }
+                    "clone" => {
+                        live = live.clone();
+                    }
+                    _ => return Some("BAD:step".to_string()),
+                }
+            }
+            out.join(" | ")
         }
         // ---------------------------------------------------------------- construction / mutation / conversion
         "mix.new" => {
